@@ -98,14 +98,14 @@ func init() {
 	})
 	addSpec(&Spec{ID: "C08", Title: "reading does not depend on how the source fragments its reads", Level: "fault_enumeration",
 		Shapes: portfolioMain,
-		Rule: "files = portfolio x 3 codecs x {single-page, multi-page, multi-row-group}; patterns = fixed chunk sizes (quick 1..17 + spread to 4096; thorough every 1..64,127,128,4095,4096), seeded random short reads, " +
-			"data-with-EOF (alone and with chunk 1/7), every k-th call short; oracle = rows and error equal to the full-read baseline; distinct = (file, pattern); non-trivial = at least one call returned fewer bytes than requested",
-		Require: []string{"short_reads", "pagedata_short_uncompressed", "pagedata_short_snappy", "pagedata_short_gzip"},
+		Rule: "files = portfolio x 3 codecs x {single-page, multi-page, multi-row-group}, files with page bodies of exactly 2^k bytes and of 1.5 MiB, and per shape 3 (thorough 12) files of the reference writer (page checksums, unknown thrift fields, free level segmentation, mixed codecs); patterns = fixed chunk sizes (quick 1..17 + spread to 4096; thorough every 1..64,127,128,4095,4096), seeded random short reads, " +
+			"data-with-EOF (alone and with chunk 1/7), every k-th call short, and sources that also offer ReadByte/ReadAt/WriteTo; oracle = rows and error equal to the full-read baseline; distinct = (file, pattern); non-trivial = at least one call returned fewer bytes than requested",
+		Require: []string{"short_reads", "pagedata_short_uncompressed", "pagedata_short_snappy", "pagedata_short_gzip", "foreign_file_cases", "cases_with_rich_source"},
 	})
 	addSpec(&Spec{ID: "C09", Title: "a failed write to the destination is always reported", Level: "fault_enumeration",
 		Shapes: portfolioMain,
 		Rule: "workloads = portfolio x 3 codecs x {single-page, multi-page, multi-row-group}; for each, a fault-free run counts the sink writes N and then EVERY k in 0..N-1 is re-run with the k-th sink write failing, " +
-			"in modes transient (only call k fails), sticky and partial (n=len/2 with the error), and again (transient, sticky) against a destination that also offers Flush/Sync/Close/WriteString/ReadFrom; oracle = the API call in progress returns non-nil, no panic; distinct = (workload, k, mode), all non-trivial",
+			"in modes transient (only call k fails), sticky, partial (n=len/2 with the error) and full-count (n=len(p) with the error), and again (transient, sticky) against a destination that also offers Flush/Sync/Close/WriteString/ReadFrom; oracle = the API call in progress returns non-nil, no panic; distinct = (workload, k, mode), all non-trivial",
 		Require:    []string{"site_leading_magic", "site_page_header", "site_page_body_required", "site_page_body_optional", "site_footer", "site_footer_length", "site_trailing_magic", "cases_with_rich_sink"},
 		Exhaustive: func(r *Run) bool { return true },
 		Extra: func(r *Run, cov map[string]interface{}) {
@@ -114,7 +114,7 @@ func init() {
 	})
 	addSpec(&Spec{ID: "C10", Title: "a failed read or seek never turns into silently wrong rows", Level: "fault_enumeration",
 		Shapes: portfolioMain,
-		Rule: "files as C08; a fault-free run counts the source calls N (Read and Seek; thrift reads byte-wise so N is in the thousands) and EVERY k in 0..N-1 is re-run with the k-th call failing, modes (0,err) and (partial,err), " +
+		Rule: "files as C08 (incl. one reference-written file per shape); a fault-free run counts the source calls N (Read and Seek; thrift reads byte-wise so N is in the thousands) and EVERY k in 0..N-1 is re-run with the k-th call failing, modes (0,err) and (partial,err), " +
 			"once with a full-read source, once under chunk-7 fragmentation and once through a source that also offers ReadByte/ReadAt/WriteTo; oracle = error reported by the constructor or Error(), or else rows exactly the file's rows; no panic; distinct = (file, frag, k, mode); non-trivial = the failing call is a seek or reads a page header or page body (faults inside the footer can only end in a constructor error)",
 		Require: []string{"site_seek", "site_footer_length", "site_footer", "site_page_header", "site_page_body_uncompressed", "site_page_body_snappy", "site_page_body_gzip",
 			"outcome_ctor_error", "outcome_iteration_error"},
